@@ -942,7 +942,9 @@ def instantiate_fn(fs, item, em):
                     k += 1
                 if not found:
                     _gone("fold rule: occurrence %d not found" % n)
-            elif rule in ("filter_collect", "map_collect"):
+            elif rule in ("filter_collect", "map_collect", "map_collect_result"):
+                # map_collect_result: the collect target is Result<Vec<T>, E> and the expression is the function's result:
+                # loop { out.push(F(x)?) } Ok(out)   (FromIterator for Result stops at the first Err)
                 # RECV.into_iter().filter(CL).collect()  /  RECV.into_iter().map(CL).collect()
                 # (R-filter-collect / R-map-collect: definitions of Iterator::filter|map + collect into Vec)
                 meth = rule.split("_")[0]
@@ -979,12 +981,15 @@ def instantiate_fn(fs, item, em):
                             edits.append((toks[r].start, toks[k + 6].end, "{ let __src = %s.into_iter(); let __f = " % recv))
                             if meth == "filter":
                                 step = "if __f(&__x) { __out.push(__x); }"
+                            elif rule == "map_collect_result":
+                                step = "__out.push(__f(__x)?);"
                             else:
                                 step = "__out.push(__f(__x));"
+                            fin = "Ok(__out)" if rule == "map_collect_result" else "__out"
                             edits.append((toks[fclose].start, endtok.end,
                                           "; let mut __out: Vec<%s> = Vec::new(); for __x in %s: __src\n" % (ety, it) +
                                           "\n".join("                " + x for x in inv) +
-                                          "\n            { %s %s } %s __out }" % (kws.get("body", ""), step, kws.get("post", ""))))
+                                          "\n            { %s %s } %s %s }" % (kws.get("body", ""), step, kws.get("post", ""), fin)))
                             log.append("R-%s-collect: `%s.into_iter().%s(CL).collect()` rewritten to an explicit loop calling CL (line %d)" % (
                                 meth, recv, meth, item.line0 + text.count("\n", 0, toks[k].start)))
                             found = True
@@ -1244,7 +1249,11 @@ def instantiate_fn(fs, item, em):
                 frm, to = pos[0].strip('"'), pos[1].strip('"')
                 why = pos[2] if len(pos) > 2 else ""
                 idx = text.find(frm)
-                if idx < 0 or text.find(frm, idx + 1) >= 0:
+                if idx < 0:
+                    # the text the rule rewrites is gone: nothing to rewrite.  Whatever replaced it is compiled and
+                    # verified as it stands (an unsupported construct there ends in exit 2 by itself): orphaned, §8.2
+                    degraded.append("orphan: subst rule: %r no longer occurs" % frm)
+                elif text.find(frm, idx + 1) >= 0:
                     degraded.append("subst rule: %r does not occur exactly once" % frm)
                 elif _mentions_lost(to):
                     degraded.append("subst rule %r dropped: its replacement mentions lost ghost %s" % (frm, _mentions_lost(to)))
